@@ -111,7 +111,8 @@ Match(r, e, prevErr) ==
     /\ ("faultReported" \in Focus) => (r.relFail # {} => (e.out.k = "err" /\ e.out.cls = "Transport"))
     \* C10: presentation requests only
     /\ ("pres" \in Focus) =>
-          SelectSeq(MsgsOf(e.wr), IsPresW) = r.pres
+          \* (a presentation request the application sends itself is its own message, not a request of the controller)
+          SelectSeq(MsgsOf(e.wr), IsPresW) = SelectSeq(r.react, IsPresW) \o r.pres
     \* C11
     /\ ("ids" \in Focus) =>
           /\ "id" \notin r.viol
